@@ -108,15 +108,16 @@ class C17(object):
     assumptions = ['Model.main() called twice on one model is outside the statement',
                    'fresh interpreter started with the same PYTHONHASHSEED']
     required_counters = ('fresh_vs_history.compared', 'series.compared', 'reparse.judged', 'logging.on', 'trace.on',
-                         'resolve.on', 'steady_state_option.on')
+                         'resolve.on', 'steady_state_option.on', 'history.exclusion_list_of_another_solver_edited_in_place')
 
     def n_cases(self, tier):
         return 32 if tier == 'quick' else 1200
 
     def make_case(self, rng, idx, tier):
         if idx % 4 == 3:
-            a = G.gen_affine(rng, rho=0.5, tol=1e-9, maxtime=rng.randint(1, 6))
-            b = G.gen_affine(rng, rho=0.5, tol=1e-9, maxtime=rng.randint(1, 6))
+            # the two blocks ask for different accuracies (explicit coarse / fine, or the parser default)
+            a = G.gen_affine(rng, rho=0.5, tol=rng.choice([1e-9, 1e-3, 1e-2, 1e-5]), maxtime=rng.randint(1, 6))
+            b = G.gen_affine(rng, rho=0.5, tol=rng.choice([1e-9, 1e-9, 1e-12, 1e-6]), maxtime=rng.randint(1, 6))
             return {'kind': 'reparse', 'A': G.render(a), 'B': G.render(b),
                     'B_names': sorted(set(G.all_value_names(b) + [d['name'] for d in b['decos']] + ['k', 't'])),
                     'reduction': rng.random() < 0.5, 'solve_A': rng.random() < 0.8}
@@ -144,6 +145,11 @@ class C17(object):
             hist.append({'op': op, 'name': rng.choice(BOOKS + ['REG2']), 'maxtime': rng.randint(1, 4)})
         settings = {'logging': rng.random() < 0.5, 'preregister': rng.random() < 0.5,
                     'trace': rng.choice([None, None, 1, 2]), 'resolves': rng.choice([0, 0, 1, 2, 3])}
+        if target.get('steady') and idx % 8 == 1:
+            # another solver's list of variables excluded from the steady-state test is edited in place (names of the
+            # target's own variables), and the target itself is re-solved
+            hist.insert(rng.randint(0, len(hist)), {'op': 'other_solver_excludes', 'name': 'SIM', 'maxtime': 1})
+            settings['resolves'] = max(1, settings['resolves'])
         if target.get('funcs') and rng.random() < 0.7:
             settings['trace'] = 1
         return {'kind': 'history', 'target': target, 'history': hist, 'settings': settings}
@@ -207,6 +213,16 @@ class C17(object):
                             pass
                     rival()              # before the target is configured ...
                     hooks.append(rival)  # ... and again between its configuration and its solve
+                elif op['op'] == 'other_solver_excludes':
+                    import re as _re
+                    names = _re.findall(r'(?m)^\s*([A-Za-z_]\w*)\s*=', target.get('text', 'x = 1'))
+                    o = EquationSolver('x = 0.5*LAG_x + 1\nLAG_x = x(k-1)\nMaxTime = 2')
+                    for nm in names:
+                        o.ParameterInitialSteadyStateExcludedVariables.append(nm)
+                    o.ParameterInitialSteadyStateExcludedVariables += ['x']
+                    o.ParameterSolveInitialSteadyState = True
+                    o.SolveEquation()
+                    rec.count('history.exclusion_list_of_another_solver_edited_in_place')
                 elif op['op'] == 'same_target_before':
                     compute_target(target)
             rec.count('history.ops')
